@@ -50,6 +50,18 @@ func (b *bucketObject) Iterator() *bucketObjectIterator {
 	}
 }
 
+// promote makes the most recently created of the archived versions the
+// current one again; it is called after the current version has been removed.
+func (b *bucketObject) promote() {
+	if b.data != nil || b.versions == nil || b.versions.Len() == 0 {
+		return
+	}
+	last := b.versions.SeekToLast()
+	defer last.Close()
+	b.data = last.Value().(*bucketData)
+	b.versions.Delete(last.Key())
+}
+
 type bucketObjectIterator struct {
 	data     *bucketData
 	iter     skiplist.Iterator
@@ -260,6 +272,7 @@ func (b *bucket) rmVersion(name string, versionID gofakes3.VersionID, at time.Ti
 		result.VersionID = versionID
 		result.IsDeleteMarker = object.data.deleteMarker
 		object.data = nil
+		object.promote()
 
 	} else if object.versions != nil {
 		versionIface, ok := object.versions.Delete(versionID)
